@@ -7,6 +7,7 @@ deadlock is decided on logical state and classified with an ideal reader-writer 
 from __future__ import annotations
 
 import random
+from collections import Counter
 
 from vp.farm import Case, fp_of
 
@@ -17,7 +18,13 @@ RULE = (
     "requests with arbitrary (shared, blocking, reentrant) on <= 2 paths, plus targeted families (reader + "
     "upgrader, nested exclusive/shared, non-blocking probes); each program runs under 40 (quick) / 250 (thorough) "
     "schedules (uniform random and PCT-style priority schedules); a case is distinct by the program and non-trivial "
-    "when >= 2 threads contend for one path and >= 5 distinct interleavings (choice lists) were executed"
+    "when >= 2 threads contend for one path and >= 5 distinct interleavings (choice lists) were executed; "
+    "real-kernel stress cases (36 quick / 600 thorough): 2-3 REAL processes x 1-4 REAL threads run the real lock.py with real "
+    "fcntl on real files for 20 / 40 rounds of a deadlock-free-by-construction program (paths nested in one order, at most one "
+    "upgrader, non-blocking probes, pool churn, reentrant stacks that start exclusive) with sys.monitoring yield injection at "
+    "every statement of lock.py; in-body enter/exit events with CLOCK_MONOTONIC stamps are merged and checked offline for "
+    "overlap (S1), /proc/locks is read inside bodies (S2), bookkeeping, descriptors and kernel locks at the end (S5); such a "
+    "case is non-trivial when a request was granted after a conflicting holder was seen or holders of two processes overlapped"
 )
 ASSUMPTIONS = [
     "the simulated kernel of vp.sched (POSIX record locks: atomic SH<->EX conversion, close of any descriptor drops "
@@ -25,15 +32,23 @@ ASSUMPTIONS = [
     "scheduling points are the operations on Lock/RLock/Condition, lockf, os.open/close and one point in every lock body",
     "a deadlock is a violation only if the ideal reader-writer lock (per-thread reentrancy) would grant a blocked request",
     "a non-blocking request may fail spuriously while another thread is inside lock code (try-lock), not at quiescence",
+    "real-kernel cases: recorded in-body intervals are contained in the true hold intervals, so overlap of recorded intervals is "
+    "real overlap; a run that does not finish is inconclusive (wall clock is no verdict) - lost wake-ups are decided by the "
+    "controlled scheduler; EDEADLK raised by the real kernel (process-granular cycle detection) is counted, not judged",
 ]
 MIN_NONTRIVIAL = {"quick": 150, "thorough": 1500}
-REQUIRED_MONITORS = ["runs", "S1_checks", "S2_checks", "S5_checks", "enter_events"]
+REQUIRED_MONITORS = ["runs", "S1_checks", "S2_checks", "S5_checks", "enter_events", "real_runs", "real_S1_checks", "real_S2_checks",
+                     "real_S5_checks", "real_yields_injected"]
 
 PATHS = ["/locks/a", "/locks/b"]
 
 
+N_SCHED = {"quick": 420, "thorough": 5000}
+N_REAL = {"quick": 36, "thorough": 600}
+
+
 def n_cases(tier):
-    return 420 if tier == "quick" else 5000
+    return N_SCHED[tier] + N_REAL[tier]
 
 
 def setup(tier):
@@ -356,6 +371,8 @@ def chooser_replay(choices):
 
 
 def run_case(rng, idx, tier):
+    if idx >= N_SCHED[tier]:
+        return run_real_case(rng, idx - N_SCHED[tier], tier)
     c = Case()
     prog = gen_program(rng, idx)
     text = render(prog)
@@ -400,4 +417,214 @@ def run_case(rng, idx, tier):
     c.hit("distinct_interleavings", len(interleavings))
     c.nontrivial = max(contended.values()) >= 2 and len(interleavings) >= 5
     c.states = list(set(c.states))[:500]
+    return c
+
+
+# ---------------------------------------------------------------------------------------------- real-kernel stress tier
+# Real processes and threads run the real lock.py (real threading / fcntl / os) on real files.  The programs are drawn
+# from families that are deadlock-free by construction under ANY correct reader-writer lock (paths nested in the order
+# a < b only, same-path nesting never upgrades except for at most ONE upgrader thread in the whole program), so the
+# tier decides the safety monitors (S1 exclusion on recorded in-body intervals, S2 kernel lock present / exclusive as
+# listed by /proc/locks while a holder is inside, S3, S4 blocking-raises, S5 bookkeeping + descriptors + kernel locks
+# at the end).  A run that does not finish is INCONCLUSIVE here (wall clock is no verdict); lost wake-ups are decided by
+# the controlled scheduler above, on logical state.
+def gen_real_program(rng, ridx):
+    fam = ridx % 6
+    a, b = "a", "b"
+    ids = [0]
+
+    def N(path, sh, bl=True, re=False, body=None):
+        ids[0] += 1
+        return {"path": path, "shared": sh, "blocking": bl, "reentrant": re, "body": body or [], "id": ids[0]}
+
+    def simple(path=None, p_sh=0.6):
+        return N(path or a, rng.random() < p_sh)
+
+    procs = []
+    if fam == 0:  # readers and writers of one file in two or three processes
+        for _ in range(rng.randint(2, 3)):
+            procs.append([[simple() for _ in range(rng.randint(1, 3))] for _ in range(rng.randint(1, 3))])
+    elif fam == 1:  # ordered nesting a -> b and same-path reentrant nesting without upgrade
+        def nest():
+            k = rng.randrange(4)
+            if k == 0:
+                return N(a, rng.random() < 0.5, True, False, [N(b, rng.random() < 0.5)])
+            if k == 1:
+                return N(a, False, True, True, [N(a, rng.random() < 0.5, True, True)])
+            if k == 2:
+                return N(a, True, True, True, [N(a, True, True, True)])
+            return N(b, rng.random() < 0.5)
+        for _ in range(2):
+            procs.append([[nest() for _ in range(rng.randint(1, 2))] for _ in range(rng.randint(1, 3))])
+    elif fam == 2:  # exactly one upgrader against readers / writers everywhere
+        procs.append([[N(a, True, True, True, [N(a, False, True, True)])], [simple()], [simple()][: rng.randint(0, 1)]])
+        procs.append([[simple() for _ in range(rng.randint(1, 2))] for _ in range(rng.randint(1, 2))])
+        procs[0] = [t for t in procs[0] if t]
+    elif fam == 3:  # non-blocking probes (never wait, so any nesting is deadlock-free) against blocking holders
+        def probe():
+            k = rng.randrange(3)
+            if k == 0:
+                return N(a, rng.random() < 0.5, False, rng.random() < 0.5)
+            if k == 1:
+                return N(a, True, True, True, [N(a, False, False, True)])
+            return N(a, rng.random() < 0.5, True, False, [N(a, rng.random() < 0.5, False, False)])
+        for _ in range(2):
+            procs.append([[probe() if rng.random() < 0.7 else simple() for _ in range(rng.randint(1, 2))] for _ in range(rng.randint(1, 3))])
+    elif fam == 4:  # pool churn: readers of one process come and go against a foreign writer / reader
+        procs.append([[N(a, True) for _ in range(rng.randint(1, 2))] for _ in range(rng.randint(2, 4))])
+        procs.append([[N(a, rng.random() < 0.3, rng.random() < 0.7)]])
+    else:  # exclusive with a reentrant stack below it (upgrade / downgrade paths of the process lock), two files
+        def stack(path, depth):
+            # a stack that STARTS exclusive never waits below its first request, whatever follows
+            if depth == 0:
+                return []
+            return [N(path, rng.random() < 0.5, True, True, stack(path, depth - 1))] + ([N(path, rng.random() < 0.5, True, True)] if rng.random() < 0.3 else [])
+
+        def t():
+            k = rng.randrange(4)
+            if k == 0:
+                return N(a, False, True, True, [N(a, True, True, True), N(b, rng.random() < 0.5)])
+            if k == 1:
+                return N(b, False, True, True, [N(b, True, True, True)])
+            if k == 2:
+                return N(a, False, True, True, stack(a, rng.randint(1, 3)))
+            return simple(rng.choice([a, b]))
+        for _ in range(rng.randint(2, 3)):
+            procs.append([[t()] for _ in range(rng.randint(1, 3))])
+    return procs
+
+
+def render_real(procs):
+    def r(n):
+        s = f"{'sh' if n['shared'] else 'ex'}({n['path']}{'' if n['blocking'] else ',nb'}{',re' if n['reentrant'] else ''})"
+        if n["body"]:
+            s += "{" + " ".join(r(x) for x in n["body"]) + "}"
+        return s
+    return [f"P{pi}.T{ti}: " + " ; ".join(r(n) for n in ops) for pi, thr in enumerate(procs) for ti, ops in enumerate(thr)]
+
+
+def analyse_real(outs):
+    """Offline checker over the merged event log of all processes."""
+    ev = []
+    for o in outs:
+        ev.extend(tuple(e) for e in o["events"])
+    # exits before enters at equal time stamps (conservative for overlap)
+    order = {"exit": 0, "request": 1, "wouldblock": 1, "recursive": 1, "edeadlk": 1, "enter": 2}
+    ev.sort(key=lambda e: (e[0], order[e[3]]))
+    active = []  # (owner, path, mode, node, round)
+    viol = []
+    states = set()
+    stats = Counter()
+    pending = {}
+    for t, proc, ti, kind, path, mode, node, rnd in ev:
+        owner = (proc, ti)
+        if kind == "request":
+            pending[(owner, node, rnd)] = any(h[1] == path and h[0] != owner and (mode == "EX" or h[2] == "EX") for h in active)
+        elif kind == "enter":
+            stats["S1_checks"] += 1
+            for h in active:
+                if h[1] == path and h[0] != owner and (mode == "EX" or h[2] == "EX"):
+                    viol.append(f"S1: P{proc}.T{ti} was inside {mode} on {path} while P{h[0][0]}.T{h[0][1]} was inside {h[2]} "
+                                f"(recorded in-body intervals overlap)")
+            others = [h for h in active if h[1] == path and h[0] != owner]
+            if others:
+                stats["shared_overlaps_cross_process" if any(h[0][0] != proc for h in others) else "shared_overlaps_same_process"] += 1
+            if pending.pop((owner, node, rnd), False):
+                stats["granted_after_conflicting_holder_seen"] += 1
+            active.append((owner, path, mode, node, rnd))
+            states.add(tuple(sorted((h[0][0], h[1], h[2]) for h in active)))
+        elif kind == "exit":
+            for i in range(len(active) - 1, -1, -1):
+                if active[i][0] == owner and active[i][3] == node and active[i][4] == rnd:
+                    del active[i]
+                    break
+        else:
+            pending.pop((owner, node, rnd), None)
+            stats["real_" + kind] += 1
+    return viol, states, stats
+
+
+def run_real_case(rng, ridx, tier):
+    import json as _json
+    import os
+    import shutil
+    import subprocess
+    import sys
+    import tempfile
+    import time
+
+    from vp import sched
+
+    c = Case()
+    procs = gen_real_program(rng, ridx)
+    text = render_real(procs)
+    c.sample = {"real_program": text}
+    c.fp = fp_of("real", text)
+    wd = tempfile.mkdtemp(prefix="vp-c15-real-")
+    try:
+        names = {"a": os.path.join(wd, "a.lock"), "b": os.path.join(wd, "b.lock")}
+        for p in names.values():
+            open(p, "w").close()
+
+        def conc(ops):
+            return [dict(n, path=names[n["path"]], body=conc(n["body"])) for n in ops]
+
+        seed = rng.getrandbits(48)
+        rounds = 20 if tier == "quick" else 40
+        start = time.monotonic_ns() + int(0.6e9)
+        child = os.path.join(os.path.dirname(os.path.dirname(os.path.abspath(__file__))), "realrun_child.py")
+        ps = []
+        for pi, thr in enumerate(procs):
+            spec = {"lock_py": sched._lock_py(), "proc": pi, "threads": [conc(ops) for ops in thr], "rounds": rounds, "seed": seed,
+                    "start_at_ns": start, "p_yield": rng.choice([0.0, 0.02, 0.08, 0.2]), "deadline_s": 40}
+            p = subprocess.Popen([sys.executable, "-W", "ignore", child], stdin=subprocess.PIPE, stdout=subprocess.PIPE,
+                                 stderr=subprocess.PIPE, text=True, env=dict(os.environ, PYTHONPATH=""))
+            p.stdin.write(_json.dumps(spec))
+            p.stdin.close()
+            p.stdin = None
+            ps.append(p)
+        outs = []
+        bad = None
+        for p in ps:
+            try:
+                txt, err = p.communicate(timeout=120)
+                outs.append(_json.loads(txt))
+            except Exception as e:  # noqa
+                bad = f"{type(e).__name__}: {str(e)[:100]}"
+                for q in ps:
+                    if q.poll() is None:
+                        q.kill()
+                break
+        if bad:
+            c.skipped = "real-run-child-failed"
+            c.sample["child_error"] = bad
+            return c
+        c.hit("real_runs")
+        hung = [(o_i, o["hung"], o["state"]) for o_i, o in enumerate(outs) if o["hung"]]
+        viol, states, stats = analyse_real(outs)
+        for k, v in stats.items():
+            c.hit("real_" + k if not k.startswith("real_") else k, v)
+        for o in outs:
+            c.hit("real_S2_checks", o["s2"]["checks"])
+            c.hit("real_S2_unreadable", o["s2"]["unreadable"])
+            c.hit("real_S2_rereads", o["s2"].get("rereads", 0))
+            c.hit("real_yields_injected", o["counters"].get("yields", 0))
+            c.hit("real_line_events", o["counters"].get("line_events", 0))
+            c.hit("real_enter_events", o["counters"].get("entered", 0))
+            viol.extend(o["s2"]["violations"][:3])
+            viol.extend(o["errors"][:3])
+            if not hung:
+                c.hit("real_S5_checks")
+                viol.extend(o["s5"])
+        for st in states:
+            c.states.append(fp_of("real", st))
+        if viol:
+            c.violate(None, "real kernel: " + viol[0], {"real_program": text, "all": viol[:6], "seed": seed})
+        elif hung:
+            c.skipped = "real-run-did-not-finish"
+            c.sample["hung"] = hung
+            c.hit("real_run_hung")
+        c.nontrivial = stats.get("granted_after_conflicting_holder_seen", 0) > 0 or stats.get("shared_overlaps_cross_process", 0) > 0
+    finally:
+        shutil.rmtree(wd, ignore_errors=True)
     return c
